@@ -1,10 +1,116 @@
-import BridgeVerif.Spec.PbnLayout
-import BridgeVerif.Spec.JsonLog
+import BridgeVerif.Lemmas.PbnImport
+import BridgeVerif.Props.C12
+/-!
+# C17 — Board-settings files are read back as the boards that were written, in order
+
+JSON: `settingsText es` is what `JsonBoardSettingWriter` writes; `parseBoardSettings?` is
+`JsonParser.parse_board_settings`.  PBN: `FileL` (Spec/PbnLayout.lean) describes the import layouts the property
+quantifies over; `f.lines` are the lines the file object yields; `pbnBoardSettings?` is
+`PbnParser.parse_board_settings`.
+-/
 namespace Bridge.C17
-theorem settings_round_trip : True := by sorry
-theorem settings_document_is_json : True := by sorry
-theorem settings_validate : True := by sorry
-theorem pbn_import_round_trip : True := by sorry
-theorem pbn_lines_of_text : True := by sorry
-theorem first_occurrence_wins : True := by sorry
+
+/-! ## JSON -/
+/-- any list of boards (none included) is written as ONE JSON document `{"board_settings": [...]}` -/
+theorem settings_document_is_json (es : List SettingEntry) (h : ∀ e ∈ es, e.WF) :
+    jsonLoad (settingsText es) = some (settingsDoc es) := by
+  have := jsonLoad_frame (jkey "board_settings") C12.tag_settings_plain (es.map settingJson) (by
+    intro j hj
+    obtain ⟨e, he, rfl⟩ := List.mem_map.1 hj
+    exact settingJson_wf e (h e he))
+  simpa [settingsText, settingsDoc, List.map_map, Function.comp_def] using this
+
+/-- it is read back as the same boards in the same order — identifier, dealer, vulnerability, the four hands (as
+sets, listed ascending), the double-dummy table included -/
+theorem settings_round_trip (es : List SettingEntry) (h : ∀ e ∈ es, e.WF) :
+    parseBoardSettings? (settingsText es) = some (es.map SettingEntry.readBack) ∧
+    ∀ e ∈ es, e.readBack.boardId = e.boardId ∧ e.readBack.dealer = e.dealer ∧ e.readBack.vul = e.vul ∧
+      e.readBack.dda = e.dda ∧ ∀ p, (e.readBack.deal p).Perm (e.deal p) := by
+  have hm : (es.map settingJson).mapM settingOfJson? = some (es.map SettingEntry.readBack) :=
+    C12.mapM_map_of_forall settingOfJson? settingJson SettingEntry.readBack es
+      fun e he => settingOfJson_settingJson e (h e he)
+  refine ⟨?_, fun e _ => ⟨rfl, rfl, rfl, rfl, fun p => sortAsc_perm (e.deal p)⟩⟩
+  have hno : (settingsDoc es).get? (jkey "logs") = none := by
+    simp [settingsDoc, Json.get?, jkey]
+  simp [parseBoardSettings?, settings_document_is_json es h, hno]
+  simp [settingsDoc, Json.get?, Json.arr?, hm]
+
+/-- it conforms to the published board-settings schema (translated from the repository on every run) -/
+theorem settings_validate (es : List SettingEntry) (h : ∀ e ∈ es, e.WF)
+    (hc : ∀ e ∈ es, ∀ d, e.dda = some d → DdaComplete d) :
+    ∃ doc, jsonLoad (settingsText es) = some doc ∧ validate Generated.settingSchema doc = true :=
+  ⟨settingsDoc es, settings_document_is_json es h,
+    validate_settingsDoc es fun e he d hd => ⟨hc e he d hd, (h e he).dda d hd⟩⟩
+
+/-! ## PBN -/
+/-- the text of an admissible file is cut into exactly the rendered lines, whether it is read through
+`io.StringIO` or through `open()` (universal newlines: CR LF becomes LF) — and the LF form is admissible too -/
+theorem pbn_lines_of_text (f : FileL) (hf : f.Admissible) :
+    pyLines f.text = f.lines ∧
+    pyLines (universalNewlines f.text) = ({ f with eol := ['\n'] } : FileL).lines ∧
+    ({ f with eol := ['\n'] } : FileL).Admissible :=
+  ⟨pyLines_text f hf, pyLines_universal f hf, admissible_lf f hf⟩
+
+/-- every admissible file is read as one game per rendered game, in order, whatever the number of blank lines
+before, between and after the games, the header lines, the extra tags and table rows; in each game a tag has the
+value of its FIRST occurrence -/
+theorem first_occurrence_wins (f : FileL) (hf : f.Admissible) :
+    parseStream f.lines = f.games.map (fun g => firstWins g.tagList []) ∧
+    ∀ g ∈ f.games, ∀ name, gameGet? (firstWins g.tagList []) name = g.firstTag? name :=
+  ⟨parseStream_layout f hf, fun g _ name => gameGet_layout g name⟩
+
+/-- **Main theorem (PBN).** Any list of boards rendered as an admissible import file — deal written from any first
+seat, tags in any order, additional tags and rows, header lines, LF or CRLF, one or more blank lines between, any
+number before and after the games, any accepted vulnerability spelling — is read as those boards, in order, with the
+same deal, dealer, vulnerability and board id -/
+theorem pbn_import_round_trip (f : FileL) (hf : f.Admissible) (bs : List SettingEntry)
+    (hlen : f.games.length = bs.length)
+    (hd : ∀ i (h₁ : i < f.games.length) (h₂ : i < bs.length), f.games[i].Describes bs[i])
+    (hw : ∀ b ∈ bs, PartialDeal b.deal) :
+    ∃ rs, pbnBoardSettings? (pyLines f.text) = some rs ∧ rs.length = bs.length ∧
+      ∀ i (h₁ : i < rs.length) (h₂ : i < bs.length), SameBoard rs[i] bs[i] := by
+  rw [pyLines_text f hf]
+  exact pbnBoardSettings_layout_getElem f hf bs hlen hd hw
+
+/-- the same through `open()` -/
+theorem pbn_import_round_trip_universal (f : FileL) (hf : f.Admissible) (bs : List SettingEntry)
+    (hlen : f.games.length = bs.length)
+    (hd : ∀ i (h₁ : i < f.games.length) (h₂ : i < bs.length), f.games[i].Describes bs[i])
+    (hw : ∀ b ∈ bs, PartialDeal b.deal) :
+    ∃ rs, pbnBoardSettings? (pyLines (universalNewlines f.text)) = some rs ∧ rs.length = bs.length ∧
+      ∀ i (h₁ : i < rs.length) (h₂ : i < bs.length), SameBoard rs[i] bs[i] := by
+  rw [pyLines_universal f hf]
+  exact pbnBoardSettings_layout_getElem _ (admissible_lf f hf) bs hlen hd hw
+
+/-- the behaviour before the two repairs of the reader, kernel-evaluated on concrete files: a leading blank line
+made `parse_board_settings` raise; a double space inside a value was collapsed -/
+theorem old_reader_defects :
+    (pbnBoardSettingsOld? ["\n".toList, "[Deal \"N:- - - -\"]\n".toList, "[Dealer \"N\"]\n".toList,
+      "[Vulnerable \"None\"]\n".toList, "[Board \"1\"]\n".toList] = none) ∧
+    (parseStreamOld ["[Board \"2  x\"]\n".toList] = [[("Board".toList, "2 x".toList)]]) :=
+  ⟨old_parser_rejects_leading_blank_line.1, old_parser_changes_value.1⟩
+
+/-! ### non-vacuity: a CRLF file with a header, a leading blank line, two games separated by two blank lines, tags
+out of order with an inner space, an extra tag, a duplicate, a row — is admissible and describes its two boards -/
+def exFile : FileL :=
+  { header := ["% PBN 2.1".toList], leading := [" ".toList],
+    games := [
+      { items := [.tag "Board".toList "2  x".toList true false [],
+                  .tag "Vulnerable".toList "Love".toList false true "  ".toList,
+                  .row "1C Pass;x".toList,
+                  .tag "Deal".toList "E:- - - -".toList false false [],
+                  .tag "Dealer".toList "S".toList false false [],
+                  .tag "Board".toList "other".toList false false []],
+        seps := [[], "\t".toList] },
+      { items := [.tag "Dealer".toList "N".toList false false [],
+                  .tag "Deal".toList "N:- - - -".toList false false [],
+                  .tag "Event".toList "".toList false false [],
+                  .tag "Vulnerable".toList "All".toList false false [],
+                  .tag "Board".toList "7".toList false false []],
+        seps := [] }],
+    eol := ['\r', '\n'] }
+example : parseStream exFile.lines = exFile.games.map (fun g => firstWins g.tagList []) := by decide +kernel
+example : (pbnBoardSettings? (pyLines exFile.text)).map (fun l => l.map fun s => (s.boardId, s.dealer, s.vul)) =
+    some [("2  x".toList, .S, .none), ("7".toList, .N, .both)] := by decide +kernel
+
 end Bridge.C17
